@@ -1,5 +1,5 @@
 """C11 - ShExC and SHACL outputs state the same constraints."""
-from checks import stage_check
+from checks import stage_check, step_check
 
 
 def _sizes(tier, k):
@@ -11,6 +11,7 @@ def _sizes(tier, k):
 def main(tier, t0):
     tasks = stage_check.tasks_for("C11", tier, scenario="single", sizes=_sizes, cfg={"want_shacl": True},
                                   structure_filter=lambda st: st.get("mode") != "shapemap")
-    return stage_check.main("C11", tier, t0, tasks=tasks,
+    tasks += step_check.tasks("C11", tier)
+    return stage_check.main("C11", tier, t0, tasks=tasks, extra_meta=dict(functions_encoded=step_check.meta("C11")["functions_encoded"]),
                             explanation="on every path both real serializers run on the same shape list of one Shaper; the ShExC parse and the SHACL graph are reduced to "
                                         "(shape, target class, direction, predicate, value restriction, min, max) tuples which must coincide under the mapping of the property.")
